@@ -8,6 +8,12 @@ CONSTANT DepthSet = "std"
 CONSTANT TrimShallow = FALSE
 CONSTANT Arity = 2
 CONSTANT SampleMod = 1
+CONSTANT TipKind = "slots"
+CONSTANT RBlocks = {}
+CONSTANT SpanBases = {}
+CONSTANT SpanMults = {}
+CONSTANT SpanOffsets = {}
+CONSTANT ResRoot = 1
 INIT Init
 NEXT Next
 INVARIANT Reflexive
@@ -23,3 +29,5 @@ INVARIANT DeepDenserWins
 INVARIANT DenserIsStrict
 INVARIANT DensityOrderIsDenser
 INVARIANT DeepTieIsPraos
+INVARIANT UnequalRatioDecides
+INVARIANT EqualRatioTies
